@@ -8,10 +8,14 @@ type ctxData struct{}
 
 func registerExtra(e *Engine) {
 	registerLogging(e)
+	registerPalomaHelpers(e)
 	registerSDK(e)
 	registerAddr(e)
 	registerHashObjects(e)
 	registerAtomic(e)
+	registerEth(e)
+	registerRegexp(e)
+	registerABI(e)
 }
 
 // loggerValue returns the universal no-op logger object (*liblog.lgwr).
@@ -19,6 +23,23 @@ func loggerValue(e *Engine) value {
 	t := e.namedType(modPath+"/util/liblog", "lgwr")
 	var cell value = zero(t)
 	return iface{t: types.NewPointer(t), v: &cell}
+}
+
+func registerPalomaHelpers(e *Engine) {
+	// x/skyway/types.convertByteArrToString: per-byte UTF-8 encoding (injective)
+	e.reg(modPath+"/x/skyway/types.convertByteArrToString", func(fr *frame, args []value) value {
+		cells := args[0].([]value)
+		if b, ok := concBytes(cells); ok {
+			var sb []rune
+			for _, c := range b {
+				sb = append(sb, rune(c))
+			}
+			return string(sb)
+		}
+		cp := make([]value, len(cells))
+		copy(cp, cells)
+		return &SymStr{parts: []strPart{{s: "utf8~"}, {kind: "b", cells: cp}}}
+	})
 }
 
 func registerLogging(e *Engine) {
